@@ -182,6 +182,52 @@ def reduce_plain(v: np.ndarray, reduction: str):
 
 
 # ---------------------------------------------------------------------------------------
+# mutual information (Parzen-window estimate with Gaussian kernel, Thevenaz & Unser 2000 / Qiu et al. 2021)
+
+
+def mi(x, y, vmin=None, vmax=None, num_bins: int = 64, normalized: bool = False, centers=None):
+    """Parzen-window (normalised) mutual information loss of single-channel images (N, 1, ..., X).
+
+    Bin centres: `num_bins` equally spaced values from vmin to vmax (both included); Gaussian window whose full width at
+    half maximum is one bin width (vmax - vmin) / num_bins.  vmin / vmax default to the joint intensity range of the
+    pair.  The 1e-5 regularisers of the estimator (normalisation of the joint histogram, argument of the logarithms)
+    are part of the model.  Returns dict(loss, Hx, Hy, Hxy (N,), S (N,) = sum of p (|log(p + 1e-5)| + 1) over the three
+    distributions (first-order sensitivity of the entropies to relative perturbations of p), sigma, vmin, vmax,
+    mass (N,) = joint histogram mass before normalisation)."""
+    x = np.asarray(x, np.float64)
+    y = np.asarray(y, np.float64)
+    N = x.shape[0]
+    s = x.reshape(N, -1)
+    t = y.reshape(N, -1)
+    vmin = float(min(s.min(), t.min())) if vmin is None else float(vmin)
+    vmax = float(max(s.max(), t.max())) if vmax is None else float(vmax)
+    width = (vmax - vmin) / num_bins
+    sigma = width / (2.0 * np.sqrt(2.0 * np.log(2.0)))
+    c = np.linspace(vmin, vmax, num_bins) if centers is None else np.asarray(centers, np.float64)
+    amp = sigma / np.sqrt(2.0 * np.pi)
+
+    def window(v):  # (N, bins, n)
+        return amp * np.exp(-((v[:, None, :] - c[None, :, None]) ** 2) / (2.0 * sigma ** 2))
+
+    ws, wt = window(s), window(t)
+    joint = np.einsum("nik,njk->nij", ws, wt)
+    mass = joint.reshape(N, -1).sum(1)
+    pj = joint / (mass + 1e-5)[:, None, None]
+    px = pj.sum(2)
+    py = pj.sum(1)
+
+    def ent(p):
+        p = p.reshape(N, -1)
+        return -(p * np.log(p + 1e-5)).sum(1), (p * (np.abs(np.log(p + 1e-5)) + 1.0)).sum(1)
+
+    (Hx, Sx), (Hy, Sy), (Hxy, Sxy) = ent(px), ent(py), ent(pj)
+    with np.errstate(divide="ignore", invalid="ignore"):
+        loss = 2.0 - np.mean((Hx + Hy) / Hxy) if normalized else -np.mean(Hx + Hy - Hxy)
+    return {"loss": float(loss), "Hx": Hx, "Hy": Hy, "Hxy": Hxy, "Sx": Sx, "Sy": Sy, "Sxy": Sxy, "sigma": sigma,
+            "vmin": vmin, "vmax": vmax, "mass": mass}
+
+
+# ---------------------------------------------------------------------------------------
 # self-test of the reference models (closed-form cases)
 
 
@@ -222,3 +268,26 @@ def selftest():
     assert np.abs(dice_binary(a, a) - 1).max() < 1e-12
     assert np.abs(tversky_binary(a, b) - dice_binary(a, b)).max() < 1e-12
     assert np.abs(tversky_binary(a, b, alpha=0.3, beta=0.7) - tversky_binary(b, a, alpha=0.7, beta=0.3)).max() < 1e-12
+    # mutual information: symmetric; identical two-level images carry log(2) of information (well separated levels,
+    # windows much narrower than the level distance); independent halves carry none
+    a = np.zeros((1, 1, 4, 4))
+    a[..., 2:, :] = 1.0
+    b = np.zeros((1, 1, 4, 4))
+    b[..., :, 2:] = 1.0
+    r = mi(a, a, 0.0, 1.0, 32)
+    assert abs(r["loss"] + np.log(2.0)) < 2e-2, r["loss"]
+    assert abs(mi(a, b, 0.0, 1.0, 32)["loss"]) < 2e-2
+    assert abs(mi(a, 1 - a, 0.0, 1.0, 32)["loss"] - r["loss"]) < 1e-12
+    q = mi(x[:, :1], y[:, :1], num_bins=16)
+    assert abs(q["loss"] - mi(y[:, :1], x[:, :1], num_bins=16)["loss"]) < 1e-12
+    assert q["vmin"] == min(x[:, :1].min(), y[:, :1].min()) and q["vmax"] == max(x[:, :1].max(), y[:, :1].max())
+    n1 = mi(a, a, 0.0, 1.0, 32, normalized=True)["loss"]
+    n0 = mi(a, b, 0.0, 1.0, 32, normalized=True)["loss"]
+    # independent halves: Hxy = Hx + Hy -> 1; identical images: below that (the window blur keeps it above 0)
+    assert abs(n0 - 1.0) < 5e-2 and 0.0 <= n1 < n0 - 0.5, (n1, n0)
+    # scale equivariance: a common affine intensity map with the range mapped along leaves the value unchanged up to
+    # the absolute 1e-5 regulariser of the histogram mass (large masses: negligible)
+    big = 1000.0
+    q1 = mi(big * x[:, :1], big * y[:, :1], num_bins=16)["loss"]
+    q2 = mi(big * (3 * x[:, :1] + 1), big * (3 * y[:, :1] + 1), num_bins=16)["loss"]
+    assert abs(q1 - q2) < 1e-6, (q1, q2)
